@@ -34,12 +34,16 @@ def litContentType : Bytes := [67, 111, 110, 116, 101, 110, 116, 45, 84, 121, 11
 def crlf : Bytes := [13, 10]
 def dashes : Bytes := [45, 45]
 
-/-- header block of one part, including the empty line -/
-def encodeHeader (p : Part) : Bytes :=
+/-- header block of one part, including the empty line.  `wfn`: write `; filename="…"` even when
+the file name is empty (`filename=""` is what browsers send for a file input left empty). -/
+def encodeHeaderW (wfn : Bool) (p : Part) : Bytes :=
   litDisposition ++ quote p.name
-    ++ (if p.filename.isEmpty then [] else litFilename ++ quote p.filename) ++ crlf
+    ++ (if p.filename.isEmpty && !wfn then [] else litFilename ++ quote p.filename) ++ crlf
     ++ (if p.mime.isEmpty then [] else litContentType ++ p.mime ++ crlf)
     ++ crlf
+
+/-- the canonical form: no `filename` parameter for an empty file name -/
+def encodeHeader (p : Part) : Bytes := encodeHeaderW false p
 
 /-- body with explicitly given header blocks (used by the body-level theorems, which are
 independent of how headers are written) -/
@@ -47,9 +51,13 @@ def encodeWith (bkey : Bytes) : List (Bytes × Bytes) → Bytes
   | [] => dashes ++ bkey ++ dashes ++ crlf
   | (hdr, data) :: rest => dashes ++ bkey ++ crlf ++ hdr ++ data ++ crlf ++ encodeWith bkey rest
 
-/-- the multipart/form-data body for boundary key `bkey` -/
-def encode (bkey : Bytes) (ps : List Part) : Bytes :=
-  encodeWith bkey (ps.map fun p => (encodeHeader p, p.data))
+/-- the multipart/form-data body for boundary key `bkey`; `wfn p` chooses per part whether an empty
+file name is written as `filename=""` -/
+def encodeW (wfn : Part → Bool) (bkey : Bytes) (ps : List Part) : Bytes :=
+  encodeWith bkey (ps.map fun p => (encodeHeaderW (wfn p) p, p.data))
+
+/-- the canonical body -/
+def encode (bkey : Bytes) (ps : List Part) : Bytes := encodeW (fun _ => false) bkey ps
 
 /-- the delimiter line as it appears inside the body: CRLF `--` bkey -/
 def delimiter (bkey : Bytes) : Bytes := crlf ++ dashes ++ bkey
